@@ -26,7 +26,12 @@ def make_bad(r, src):
     base = strip_comments(src)
     toks = tokens(base)
     k = r.choice(['premature_end', 'premature_end', 'unbalanced_open', 'unbalanced_close', 'stray_token', 'illegal_char',
-                  'unterminated_string', 'reserved_word', 'truncated'])
+                  'unterminated_string', 'reserved_word', 'truncated', 'opener'])
+    if k == 'opener':
+        # the text ends inside what other languages (or a future version of this one) would read as an open block
+        # comment / long string: today a plain lexical or syntax error, and nothing of it may outlive the call
+        return 'opener', base.rstrip() + r.choice([' /* note', ' """abc', " '''x y", ' /** d', ' (* c', ' <!-- h', ' {# j', ' /* a */ /* b',
+                                                                ' "a\\" + secret', ' + "hello \\"world'])
     if not toks:
         return 'illegal_char', src + ' $'
     if k == 'premature_end':
